@@ -209,8 +209,9 @@ func runC16(c *Ctx) {
 	// commitTx ordering and merge
 	ct := c.fn(ffl, "dbCache", "commitTx")
 	if ct != nil {
-		c.checkedBefore("G-flush-order", "commitTx|flush before direct write", ct, "c.flush()", callPred(R{ffl, "dbCache", "flush"}), "commitTreaps(tx.pending...)", callPred(R{ffl, "dbCache", "commitTreaps"}))
-		for _, t := range ssau.CallsIn(ct, callPred(R{ffl, "dbCache", "commitTreaps"})) {
+		ctw := c.relocate(ct, callPred(R{ffl, "dbCache", "commitTreaps"}))
+		c.checkedBefore("G-flush-order", "commitTx|flush before direct write", ctw, "c.flush()", callPred(R{ffl, "dbCache", "flush"}), "commitTreaps(tx.pending...)", callPred(R{ffl, "dbCache", "commitTreaps"}))
+		for _, t := range ssau.CallsIn(ctw, callPred(R{ffl, "dbCache", "commitTreaps"})) {
 			a := t.Common().Args
 			c.R.Check("G-flush-order", "commitTx|direct write args", fieldIs("transaction", "pendingKeys")(stripIface(a[1])) && fieldIs("transaction", "pendingRemove")(stripIface(a[2])), c.posOf(t), "commitTreaps(tx.pendingKeys, tx.pendingRemove)")
 		}
@@ -323,7 +324,7 @@ func runC17(c *Ctx) {
 	fl := c.fn(ffl, "dbCache", "flush")
 	c.checkedBefore("G-sync-order", "flush|syncBlocks before commitTreaps", fl, "store.syncBlocks()", callPred(R{ffl, "blockStore", "syncBlocks"}), "commitTreaps", callPred(R{ffl, "dbCache", "commitTreaps"}))
 	ct := c.fn(ffl, "dbCache", "commitTx")
-	c.checkedBefore("G-sync-order", "commitTx|flush before direct write", ct, "c.flush()", callPred(R{ffl, "dbCache", "flush"}), "commitTreaps", callPred(R{ffl, "dbCache", "commitTreaps"}))
+	c.checkedBefore("G-sync-order", "commitTx|flush before direct write", c.relocate(ct, callPred(R{ffl, "dbCache", "commitTreaps"})), "c.flush()", callPred(R{ffl, "dbCache", "flush"}), "commitTreaps", callPred(R{ffl, "dbCache", "commitTreaps"}))
 
 	wp := c.fn(ffl, "transaction", "writePendingAndCommit")
 	if wp != nil {
